@@ -2,6 +2,7 @@ import TFV.Properties.DE
 import TFV.Properties.Runs
 import TFV.Properties.Src.BoundsControl
 import TFV.Properties.Src.Binomial
+import TFV.Properties.Src.Donors
 #print axioms TFV.DE.C07_clamp
 #print axioms TFV.DE.C07_clampMean
 #print axioms TFV.DE.C07_repair_only_outside
@@ -20,3 +21,12 @@ import TFV.Properties.Src.Binomial
 #print axioms TFV.SrcTie.C07_src_clamp_agrees
 #print axioms TFV.SrcTie.C07_src_bounds_control_in_box
 #print axioms TFV.SrcTie.C07_src_binomial
+#print axioms TFV.SrcTie.C07_src_donor
+#print axioms TFV.SrcTie.C07_src_best_1
+#print axioms TFV.SrcTie.C07_src_rand_1
+#print axioms TFV.SrcTie.C07_src_rand_to_best1
+#print axioms TFV.SrcTie.C07_src_current_to_best_1
+#print axioms TFV.SrcTie.C07_src_best_2
+#print axioms TFV.SrcTie.C07_src_rand_2
+#print axioms TFV.SrcTie.C07_src_current_to_pbest_1_archive
+#print axioms TFV.SrcTie.C07_src_donor_distinct
